@@ -6,15 +6,16 @@ set -e
 OUT="$1"; mkdir -p "$OUT"
 export GOFLAGS=-mod=mod GOPROXY=off GOSUMDB=off GOTOOLCHAIN=local
 V=/verif
+REPO="${VERIF_REPO:-/repo}"
 SC=$(mktemp -d /tmp/vscratch.XXXXXX)
 trap 'rm -rf "$SC"' EXIT
 mkdir -p "$SC/sod/vshim" "$SC/harness" "$SC/bin"
 (cd $V/go/rewrite && go build -o "$SC/bin/rw" .)
-"$SC/bin/rw" /repo "$SC/sod" > "$OUT/rewrite.log"
-cp /repo/go.mod /repo/go.sum "$SC/sod/"
+"$SC/bin/rw" "$REPO" "$SC/sod" > "$OUT/rewrite.log"
+cp "$REPO/go.mod" "$REPO/go.sum" "$SC/sod/"
 cp $V/go/vshim/vshim.go "$SC/sod/vshim/"
 cp $V/go/export/zz_verif_export.go "$SC/sod/"
 cp -r $V/go/harness/. "$SC/harness/"
-cp /repo/go.sum "$SC/harness/"
+cp "$REPO/go.sum" "$SC/harness/"
 (cd "$SC/harness" && go build -tags verif -o "$OUT/hz" .)
 if [ -n "$RACE" ]; then (cd "$SC/harness" && go build -tags verif -race -o "$OUT/hz-race" .); fi
